@@ -140,7 +140,15 @@ class Fn:
         if k == 'goto':
             out = [t['to']]
         elif k == 'switch':
-            out = [b for _, b in t['targets']] + [t['else']]
+            kc = t['o'].get('k')
+            cv = const_value(kc) if kc is not None else None
+            if cv is not None and isinstance(cv, (bool, int)):
+                # `cfg!(..)` / literal conditions: only the matching edge is feasible
+                iv = int(cv)
+                hit = [b for v, b in t['targets'] if v == iv]
+                out = hit[:1] if hit else [t['else']]
+            else:
+                out = [b for _, b in t['targets']] + [t['else']]
         elif k in ('drop', 'assert'):
             out = [t['to']]
             if unwind and isinstance(t.get('unw'), int):
